@@ -22,6 +22,18 @@
 #include <gmssl/http.h>
 #include <gmssl/error.h>
 
+// ctime() answers through storage shared by all threads: use the reentrant form
+static const char *time_str(const time_t *tv, char buf[32])
+{
+#ifdef WIN32
+	if (ctime_s(buf, 32, tv) != 0) return "(invalid time)\n";
+#else
+	if (!ctime_r(tv, buf)) return "(invalid time)\n";
+#endif
+	return buf;
+}
+
+
 
 static const char *x509_crl_reason_names[] = {
 	"unspecified",
@@ -384,7 +396,7 @@ int x509_crl_entry_ext_print(FILE *fp, int fmt, int ind, const char *label, cons
 			error_print();
 			return -1;
 		}
-		format_print(fp, fmt, ind, "invalidityDate: %s", ctime(&invalidity_date));
+		format_print(fp, fmt, ind, "invalidityDate: %s", time_str(&invalidity_date, (char[32]){0}));
 
 	} else if (oid == OID_ce_certificate_issuer) {
 		const uint8_t *gns;
@@ -627,7 +639,7 @@ int x509_revoked_cert_print(FILE *fp, int fmt, int ind, const char *label, const
 	if (asn1_integer_from_der(&p, &len, &d, &dlen) != 1) goto err;
 	format_bytes(fp, fmt, ind, "userCertificate", p, len);
 	if (x509_time_from_der(&tv, &d, &dlen) != 1) goto err;
-	format_print(fp, fmt, ind, "revocationDate: %s", ctime(&tv));
+	format_print(fp, fmt, ind, "revocationDate: %s", time_str(&tv, (char[32]){0}));
 	if ((ret = asn1_sequence_from_der(&p, &len, &d, &dlen)) < 0) goto err;
 	if (ret) x509_crl_entry_exts_print(fp, fmt, ind, "crlEntryExtensions", p, len);
 	if (asn1_length_is_zero(dlen) != 1) goto err;
@@ -1338,9 +1350,9 @@ int x509_tbs_crl_print(FILE *fp, int fmt, int ind, const char *label, const uint
 	if (x509_name_from_der(&p, &len, &d, &dlen) != 1) goto err;
 	x509_name_print(fp, fmt, ind, "issuer", p, len);
 	if (x509_time_from_der(&tv, &d, &dlen) != 1) goto err;
-	format_print(fp, fmt, ind, "thisUpdate: %s", ctime(&tv));
+	format_print(fp, fmt, ind, "thisUpdate: %s", time_str(&tv, (char[32]){0}));
 	if ((ret = x509_time_from_der(&tv, &d, &dlen)) < 0) goto err;
-	if (ret) format_print(fp, fmt, ind, "nextUpdate: %s", ctime(&tv));
+	if (ret) format_print(fp, fmt, ind, "nextUpdate: %s", time_str(&tv, (char[32]){0}));
 	if ((ret = asn1_sequence_from_der(&p, &len, &d, &dlen)) < 0) goto err;
 	if (ret) x509_revoked_certs_print(fp, fmt, ind, "revokedCertificates", p, len);
 	if ((ret = x509_explicit_exts_from_der(0, &p, &len, &d, &dlen)) < 0) goto err;
